@@ -252,6 +252,69 @@ type evIll struct {
 	Ill  string `json:"ill"`
 }
 
+// ioErrors: a reader that fails with an I/O error (not a syntax error) after k bytes: the zone's own reader, an
+// included file (every offset of small files, sampled offsets of one larger than the lexer's buffer), a file
+// included at depth 2, a directory as include target.  Records follow the failure point in every file.  "Reports
+// the first problem as an error and returns no further records": Err() non-nil and sticky, nothing returned after
+// the reader failed.  The wrapper that injects the error logs it as a `readfail' event, so that Trace_Zone's
+// machine (after readfail only next -> err) judges the history too.
+func ioErrors(sum *hx.Summary, w *hx.Writer) {
+	top := "a 5 A 10.0.0.1\n$INCLUDE inc\nafter 5 A 10.0.0.9\nlast 5 A 10.0.0.10\n"
+	inc := "x 5 A 10.0.0.2\ny 5 MX 10 mail\n$INCLUDE inc2 sub\nz 5 TXT \"z z\" ( \"q\"\n ) ; c\nw 5 A 10.0.0.4\n"
+	inc2 := "p 5 A 10.0.0.5\nq 5 NS ns\n"
+	big := strings.Repeat("r 5 TXT \"0123456789012345678901234567890123456789012345678901234567890123\"\n", 40) // 3 KiB
+	base := func() fstest.MapFS {
+		return fstest.MapFS{"inc": {Data: []byte(inc)}, "inc2": {Data: []byte(inc2)}, "big": {Data: []byte(big)}, "dir/x.zone": {Data: []byte(inc2)}}
+	}
+	type ioCase struct {
+		where   string
+		text    string
+		failTop int
+		failFS  map[string]int
+	}
+	var cs []ioCase
+	for k := 0; k <= len(top); k++ {
+		cs = append(cs, ioCase{"top", top, k + 1, nil})
+	}
+	for k := 0; k <= len(inc)+1; k++ {
+		cs = append(cs, ioCase{"include", top, 0, map[string]int{"inc": k}})
+	}
+	for k := 0; k <= len(inc2)+1; k++ {
+		cs = append(cs, ioCase{"nested", top, 0, map[string]int{"inc2": k}})
+	}
+	for k := 0; k <= len(big)+1; k += 97 {
+		cs = append(cs, ioCase{"include-big", "a 5 A 10.0.0.1\n$INCLUDE big\nafter 5 A 10.0.0.9\n", 0, map[string]int{"big": k}})
+	}
+	cs = append(cs, ioCase{"directory", "a 5 A 10.0.0.1\n$INCLUDE dir\nafter 5 A 10.0.0.9\n", 0, nil})
+	for _, c := range cs {
+		sum.Evaluations++
+		rc := zg.RunCfg{Origin: "example.", DefTTL: -1, IncAllowed: true, FS: base(), File: "db", NoMem: true, FailTop: c.failTop, FailFS: c.failFS}
+		o, timedOut, _ := zg.RunBudget([]byte(c.text), rc, budget)
+		info := map[string]interface{}{"family": "io-error:" + c.where, "text": c.text, "failTop": c.failTop - 1, "failFS": c.failFS}
+		safety("io-error", len(c.text), &o, timedOut, rc, false, sum, info)
+		if o.Panic != "" {
+			continue
+		}
+		failed := o.ReadFails > 0 || c.where == "directory"
+		switch {
+		case failed && o.Err == nil:
+			sum.Mis("zone/hostile:io-error-lost:"+c.where, fmt.Sprintf("a reader failed with an I/O error after %d records; Err() is nil and %d records were returned in all", o.RecsAtFail, o.NRecs), info)
+		case o.ReadFails > 0 && o.NRecs > o.RecsAtFail:
+			sum.Mis("zone/hostile:record-after-io-error:"+c.where, fmt.Sprintf("%d records were returned after a reader had failed with an I/O error", o.NRecs-o.RecsAtFail), info)
+		case c.where == "directory":
+			for _, r := range o.Recs {
+				if len(r.Owner) > 0 && r.Owner[0].String() == "after" {
+					sum.Mis("zone/hostile:record-after-io-error:directory", "a directory was the $INCLUDE target and the records after the $INCLUDE line were returned", info)
+				}
+			}
+		}
+		w.Emit(map[string]interface{}{"ev": "parser", "allowed": true, "chain": false})
+		for _, e := range o.Events {
+			w.Emit(e)
+		}
+	}
+}
+
 func hostile(out string) {
 	tmp, err := os.MkdirTemp("", "zone-realfs-")
 	if err != nil {
@@ -348,6 +411,8 @@ func hostile(out string) {
 			sum.Sample(map[string]interface{}{"family": c.fam, "text": short, "records": o.NRecs, "opens": len(o.Opens), "err": o.ErrText, "alloc": o.Alloc, "ms": o.Dur.Milliseconds()})
 		}
 	}
+	ioErrors(&sum, w)
+	fams["io-error"] = sum.Evaluations - len(families(tmp))
 	sum.Nontrivial = sum.Evaluations
 	sum.Note("events", w.N)
 	sum.Note("families", fams)
